@@ -231,7 +231,15 @@ class C06Monitor:
                                    {"market": m.market_id, "time": past, "now": t, "was": h[past], "is": now_v})
                             return
                 try:
-                    h[t] = f(t)
+                    # what the step ended with: the answer without a time argument (= now), which must also be the
+                    # answer for this time whenever it is asked for explicitly, now or later
+                    h[t] = f()
+                    now_explicit = f(t)
+                    if now_explicit != h[t] and not (now_explicit != now_explicit and h[t] != h[t]):
+                        self.v("history", "recorded-value-for-a-past-time-changed:" + name.replace("get_", ""),
+                               {"market": m.market_id, "time": t, "now": t, "answer_without_time": h[t],
+                                "answer_for_this_time": now_explicit, "where": "end of the step itself"})
+                        return
                 except Exception:  # noqa
                     pass
 
@@ -310,6 +318,14 @@ class C06Monitor:
                     self.future_checked_at = t
                     res.count("steps")
                     self.future_guard()
+                    # a reader in the middle of the step (before its orders): the current time asked for explicitly
+                    for m_ in self.sim.markets:
+                        for name_ in (INDEX_SCALARS if hasattr(m_, "get_index") else []) + ["get_vwap"]:
+                            try:
+                                getattr(m_, name_)(t)
+                                res.count("explicit_queries_for_the_current_time_before_the_steps_orders")
+                            except Exception:  # noqa
+                                pass
             elif n == "MarketStepEndLog":
                 t = self.same_time("step-end")
                 if t is None:
